@@ -3,6 +3,7 @@
 package main
 
 import (
+	"encoding/json"
 	"context"
 	"strings"
 	"time"
@@ -131,7 +132,13 @@ func (x *exec_) doGRPC(o *stepObs, st *step, now int64) {
 	req := rc.req()
 	text := "{}"
 	if len(st.Msg) > 0 {
-		text = x.expand(string(st.Msg), now)
+		raw := string(st.Msg)
+		// the message may be given as JSON text inside a JSON string
+		var asString string
+		if json.Unmarshal(st.Msg, &asString) == nil {
+			raw = asString
+		}
+		text = x.expand(raw, now)
 	}
 	if err := (protojson.UnmarshalOptions{DiscardUnknown: false}).Unmarshal([]byte(text), req); err != nil {
 		o.Body = "procx: msg: " + err.Error()
